@@ -68,12 +68,13 @@ package types
 //@   assigns nothing
 
 //@@ the invalid value of a base type as an interface value (table goinvalid; its entries are what C15 compares
-//@@ the constructors with): assumed total, never nil, and as wide as the base type (the table entries' types are
-//@@ compared with the size table by the closed obligations invalid-table.size.<i>)
+//@@ the constructors with): total, never nil, and as wide as the base type; verified against the body and the
+//@@ extracted initialiser of goinvalid (dynamic type of every entry). Stated over the index bits: a Base whose
+//@@ bits 5/6 are set is Known() too (0x27 indexes the string entry) - the first, assumed version of this
+//@@ contract said `t != BaseString` and was wrong for such values.
 //@ func (t Base) Invalid() (r interface{})
 //@   props C05 C06 C07
-//@   trusted
 //@   ensures r != nil
-//@   ensures [size] KnownIdx(t) && t != BaseString ==> binsize(r) == SizeSpec(byte(t)&0x1F)
-//@   ensures [string] KnownIdx(t) && t == BaseString ==> typeis[string](r)
+//@   ensures [size] KnownIdx(t) && (byte(t)&0x1F) != 7 ==> binsize(r) == SizeSpec(byte(t)&0x1F)
+//@   ensures [string] KnownIdx(t) && (byte(t)&0x1F) == 7 ==> typeis[string](r)
 //@   assigns nothing
